@@ -3,8 +3,39 @@ from .codecprops import *
 
 
 def check(v):
+    check_main(v)
+    if not v.violations:
+        validate_extraction(v)
+
+
+def check_main(v):
     run_codec_property(v, "C01", ["ser", "full"], oracle_c01)
     v.coverage.setdefault("samples", []).append({"theorem": "C01_full_roundtrip: forall pf h t v evs, hdr_ok h -> wf t -> deserializable t -> wt t v -> exhausted_in t v = false -> ser_top pf h t v = (evs, SDone) -> deser_full_top h t (bytes_of evs) = Ok (v, [], evs_len evs)"})
+
+
+def validate_extraction(v, nsample=40):
+    """a sample of the campaign re-evaluated inside Coq (vm_compute) against the extracted model"""
+    from . import coqeval
+    c = campaign(v.tier)
+    small = [x for x in c.cases if not getattr(x, "liar", False) and not getattr(x, "scaled_of", None)
+             and approx_len(c.U, x.t, x.v) < 400 and (x.cid, "ser") in c.mobs]
+    import random
+    rng = random.Random(seed() * 131 + 7)
+    # every constructor family at least once, then random
+    sample, seen = [], set()
+    for x in small:
+        ks = frozenset(k.split(":")[0] for k in constructors(c.U, x.t))
+        if not ks <= seen:
+            seen |= ks
+            sample.append(x)
+    rest = [x for x in small if x not in sample]
+    rng.shuffle(rest)
+    sample = (sample + rest)[:nsample]
+    n, bad = coqeval.evaluate(c, sample, os.path.join(CACHE, "coqeval"))
+    v.coverage["extraction_validated_in_coq"] = n
+    if bad:
+        bad.update({"kind": "correspondence", "correspondence": "the model evaluated inside Coq (vm_compute) vs the extracted OCaml model on the same case"})
+        v.violation("extraction", bad, no_input=True)
 
 
 def replay(v, path):
